@@ -615,7 +615,7 @@ func TestC21_Corpus(t *testing.T) {
 		t.Skip()
 	}
 	seeds := c21GetSeeds()
-	r := vk.Open(t, "C21", "TestC21_Corpus", "thorough: every seed unmodified x {gno's mode, AllErrors+comments}, every hand-written and literal seed in all 10 modes, 5 inputs nested beyond the 1e5 limit; quick: a twelfth of the files (rotating with the seed), literals in 3 modes, hand-written seeds in all modes, 2 nesting inputs; "+c21Rule)
+	r := vk.Open(t, "C21", "TestC21_Corpus", "thorough: every seed unmodified x {gno's mode, AllErrors+comments}, every hand-written and literal seed in all 10 modes, 5 inputs nested beyond the 1e5 limit; quick: 1/24 of the files (rotating with the seed), literals in 2 modes, hand-written seeds in all modes, 1 nesting input; "+c21Rule)
 	defer r.Close()
 	r.ReplayAs = "TestC21_Parser"
 	n := 0
@@ -625,11 +625,11 @@ func TestC21_Corpus(t *testing.T) {
 		if !strings.HasPrefix(k, "file:") {
 			modes = []int{0, 1, 2, 3, 4, 5, 6, 7, 8, 9}
 			if !thorough && strings.HasPrefix(k, "lit:") {
-				modes = []int{0, 4, 1 + idx%9}
+				modes = []int{0, 1 + idx%9}
 			}
 		} else if !thorough {
-			// quick tier: a rotating twelfth of the files, gno's mode only
-			if uint64(idx)%12 != r.Seed%12 {
+			// quick tier: a rotating 1/24 of the files, gno's mode only
+			if uint64(idx)%24 != r.Seed%24 {
 				continue
 			}
 			modes = []int{0}
@@ -651,7 +651,7 @@ func TestC21_Corpus(t *testing.T) {
 		"package p; type T " + strings.Repeat("*", 100002) + "int",
 	}
 	if !thorough {
-		deep = deep[:2]
+		deep = deep[:1]
 	}
 	for _, raw := range deep {
 		c := c21Case{Seed: "raw", Raw: []byte(raw), Mode: 4}
